@@ -67,6 +67,9 @@ def witness_programs():
     add("same-inline-twice", "packet A {\n    Hdr {\n        u8 a,\n    },\n}\npacket B {\n    Hdr {\n        u16 b,\n    },\n}\nroot packet P {\n    A,\n    B,\n}\n")
     add("no-root", "packet A {\n    u8 a,\n}\npacket B {\n    A,\n}\n")
     add("cyclic", "packet A {\n    u8 a,\n    repeat B,\n}\npacket B {\n    repeat A,\n}\nroot packet P {\n    A,\n}\n", allow_cyclic=True)
+    # member ORDER: inline objects before / between packet references (state carried across the field loop)
+    add("inline-then-ref", "packet Party {\n    u8 id,\n}\nroot packet Order {\n    u8 k,\n    repeat Leg {\n        u16 qty,\n    },\n    Party Owner,\n    repeat Party Parties,\n"
+        "    Hdr {\n        u8 h,\n    },\n    Party Last,\n    string note,\n}\n")
     add("len-list", "packet A {\n    u8 a,\n}\nroot packet P {\n    u8 K,\n    u16 L @lengthOf(M),\n    match K as M {\n        1 : A,\n    },\n    repeat A items,\n    u32 Sum @calculatedFrom(\"CRC32\"),\n}\n")
     return P
 
@@ -108,7 +111,7 @@ KNOWN = [
      "t17-nested-match"),
     ("rust-duplicate-key-field", r"rust", r"^build: \w+: field \w+ specified more than once",
      "rust: the key member is written once per match field (rust_generator.go:484)", "t17-shared-key"),
-    ("java-nested-inline-class-name", r"java", r"^build: cannot find symbol: class \w+\.\w+",
+    ("java-nested-inline-class-name", r"java", r"^build: cannot find symbol: class [\w.]+ \(the inline class is ",
      "java: GenerateNewInstance (java_generator.go:743-749) qualifies an inline class with the name of its direct parent only: Sub.Deep instead of Msg.Sub.Deep does not resolve from the test class", "cells-c0"),
     ("java-redeclared-variable", r"java", r"^build: variable \w+ is already defined",
      "java: sample variables are named after the field / payload packet (java_generator.go:743-746, 764): the same name at two places (or 'decoded', 'buffer') is declared twice in one method",
